@@ -247,7 +247,8 @@ def bad_requests(chk, kind, arr, n, r, els_now):
                           dict(api=c[0], kind=kind, n=n, allow_fill=c[1], request=c[2], impl=got, spec=exp))
         chk.count("validation:" + exp.split(":")[0])
     # boolean mask of the wrong length, NA in indexers
-    for key, exp in ((np.ones(n + 1, dtype=bool), "IndexError"), (pd.array([True, None] + [False] * max(0, n - 2), dtype="boolean")[:n] if n >= 2 else None, "ValueError"),
+    for key, exp in ((np.ones(n + 1, dtype=bool), "IndexError"), (np.zeros(0, dtype=bool) if n else None, "IndexError"), (np.ones(n - 1, dtype=bool) if n >= 2 else None, "IndexError"),
+                     (pd.array([True, None] + [False] * max(0, n - 2), dtype="boolean")[:n] if n >= 2 else None, "ValueError"),
                      (pd.array([0, None], dtype="Int64") if n else None, "ValueError")):
         if key is None:
             continue
